@@ -224,20 +224,29 @@ theorem insertEdge_plain (T : Tables α) (x : α) (s : St α) (e : Nat) :
 /-! ### the mutation loop -/
 
 /-- State of the mutation bookkeeping when the mutations in `mutD` have been visited and those in
-`mutR` have not. -/
-structure MutsOk (T : Tables α) (M : Muts α) (sb : Bool) (mutD mutR : List Nat) (s : St α) : Prop where
+`mutR` have not.  `w m` is the weight with which mutation `m` is counted (`1` in the plain variant). -/
+structure MutsOk (T : Tables α) (M : Muts α) (w : Nat → α) (mutD mutR : List Nat) (s : St α) :
+    Prop where
   szME : s.mutEdge.size = M.node.size
   szEM : s.edgeMuts.size = T.numEdges
   done : ∀ m ∈ mutD, ∀ e, aget s.mutEdge m = some e ↔ Above T M m e
   todo : ∀ m ∈ mutR, aget s.mutEdge m = none
-  count : sb = false → ∀ e, e < T.numEdges →
-    aget s.edgeMuts e = ((mutD.countP fun m => decide (Above T M m e) : Nat) : α)
+  count : ∀ e, e < T.numEdges →
+    aget s.edgeMuts e = (mutD.map fun m => if Above T M m e then w m else 0).sum
 
-theorem MutsOk.congr {T : Tables α} {M : Muts α} {sb : Bool} {mutD mutR : List Nat} {s s' : St α}
-    (h : MutsOk T M sb mutD mutR s) (h1 : s'.mutEdge = s.mutEdge) (h2 : s'.edgeMuts = s.edgeMuts) :
-    MutsOk T M sb mutD mutR s' :=
+theorem MutsOk.congr {T : Tables α} {M : Muts α} {w : Nat → α} {mutD mutR : List Nat} {s s' : St α}
+    (h : MutsOk T M w mutD mutR s) (h1 : s'.mutEdge = s.mutEdge) (h2 : s'.edgeMuts = s.edgeMuts) :
+    MutsOk T M w mutD mutR s' :=
   ⟨by rw [h1]; exact h.szME, by rw [h2]; exact h.szEM, by rw [h1]; exact h.done,
     by rw [h1]; exact h.todo, by rw [h2]; exact h.count⟩
+
+theorem sum_indicator (l : List Nat) (p : Nat → Prop) [DecidablePred p] :
+    (l.map fun m => if p m then (1 : α) else 0).sum = ((l.countP fun m => decide (p m) : Nat) : α) := by
+  induction l with
+  | nil => simp
+  | cons a r ih =>
+    rw [List.map_cons, List.sum_cons, ih, List.countP_cons]
+    by_cases h : p a <;> simp [h, add_comm]
 
 theorem mutStep_none (M : Muts α) (sb : Bool) (s : St α) (m : Nat)
     (h : aget s.nodeEdge (aget M.node m) = none) : mutStep M sb s m = s := by
@@ -253,11 +262,12 @@ theorem mutStep_some (M : Muts α) (sb : Bool) (s : St α) (m e : Nat)
 
 /-- One step of the mutation loop, given that `nodes_edge` at the mutation's node is the edge above
 the mutation. -/
-theorem mutStep_ok (T : Tables α) (M : Muts α) (sb : Bool) (mutD : List Nat) (m : Nat)
+theorem mutStep_ok (T : Tables α) (M : Muts α) (sb : Bool) (w : Nat → α) (mutD : List Nat) (m : Nat)
     (mutR : List Nat) (s : St α) (hm : m < M.node.size) (hnd : (mutD ++ m :: mutR).Nodup)
     (hne : ∀ e, aget s.nodeEdge (aget M.node m) = some e ↔ Above T M m e)
-    (h : MutsOk T M sb mutD (m :: mutR) s) :
-    MutsOk T M sb (mutD ++ [m]) mutR (mutStep M sb s m) ∧
+    (hw : (if sb then aget s.nodeSamples (aget M.node m) else 1) = w m)
+    (h : MutsOk T M w mutD (m :: mutR) s) :
+    MutsOk T M w (mutD ++ [m]) mutR (mutStep M sb s m) ∧
     (mutStep M sb s m).nodeEdge = s.nodeEdge ∧ (mutStep M sb s m).edgeSpan = s.edgeSpan ∧
     (mutStep M sb s m).err = s.err ∧ (mutStep M sb s m).nodeSamples = s.nodeSamples ∧
     (mutStep M sb s m).nodeParent = s.nodeParent := by
@@ -279,8 +289,8 @@ theorem mutStep_ok (T : Tables α) (M : Muts α) (sb : Bool) (mutD : List Nat) (
       · simp at hm'; subst hm'
         rw [hmnone, ← hne e, hcase]
     · intro m' hm'; exact h.todo m' (List.mem_cons_of_mem _ hm')
-    · intro hsb e he
-      rw [h.count hsb e he, List.countP_append, List.countP_singleton]
+    · intro e he
+      rw [h.count e he, List.map_append, List.sum_append]
       have : ¬ Above T M m e := by rw [← hne e, hcase]; simp
       simp [this]
   | some e0 =>
@@ -311,19 +321,16 @@ theorem mutStep_ok (T : Tables α) (M : Muts α) (sb : Bool) (mutD : List Nat) (
       have : m' ≠ m := fun hh => hmR (hh ▸ hm')
       rw [aget_aset_other _ _ _ _ this]
       exact h.todo m' (List.mem_cons_of_mem _ hm')
-    · intro hsb e he
-      simp only [hsb, Bool.false_eq_true, if_false]
-      rw [aget_aset _ _ _ _ he0, List.countP_append, List.countP_singleton]
+    · intro e he
+      simp only
+      rw [aget_aset _ _ _ _ he0, List.map_append, List.sum_append, hw]
       by_cases hee : e = e0
       · subst hee
-        simp only [if_true, hA0, decide_true]
-        rw [h.count hsb e he]
-        push_cast
-        ring
+        rw [if_pos rfl, h.count e he]
+        simp [hA0]
       · have : ¬ Above T M m e := fun hh => hee ((huniq e).mp hh)
-        simp only [hee, if_false, this, decide_false]
-        rw [h.count hsb e he]
-        simp
+        rw [if_neg hee, h.count e he]
+        simp [this]
 
 /-- What `takeWhile`/`dropWhile (pos · < x')` do on a list sorted by position. -/
 theorem split_sorted_lt (key : Nat → α) (x' : α) (R : List Nat)
